@@ -151,4 +151,55 @@ theorem normPaths_members {rec : Rec} {j : Json} {ms : List (String × Json)} (h
         · obtain ⟨x, hx, hk, _⟩ := mapMembersR_mem _ pths hpths m h1
           left; rw [← hk]; exact (List.mem_filter.mp hx).2
 
+
+/-! ### on actual encodings -/
+
+theorem norm_succ {k : String} {j r : Json} (h : norm k j = .ok r) : ∃ n, normKind (normF n) k j = .ok r := by
+  unfold norm at h
+  cases hf : fuelFor j with
+  | zero => rw [hf] at h; simp [normF] at h
+  | succ n => rw [hf] at h; exact ⟨n, by simpa [normF] using h⟩
+
+theorem norm_lookup_response (ok : TablesOK) {ki : KindInfo} (hk : lookupKind Gen.kinds "response" = some ki)
+    (hlive : liveParts ki = ["ResponseProps", "Refable", "VendorExtensible"])
+    (hcov : structCovered ki = true) (hext : extCovered ki = true) (hkw : keywordsNotNumerals = true)
+    {j₀ : Json} {ms : List (String × Json)} (h : norm "response" j₀ = .ok (.obj ms))
+    {tok : String} {v : Json} (hm : (tok, v) ∈ ms) (hne : tok ≠ "$ref") : lookupTok "response" ms tok = some v := by
+  have hl := nd_obj_lookup (norm_nd ok "response" j₀ _ h) hm
+  obtain ⟨n, hn⟩ := norm_succ h
+  have h1 : normResponse (normF n) j₀ = .ok (.obj ms) := by simpa [normKind] using hn
+  obtain ⟨d, hd, hcl⟩ := normResponse_claims (normF_nd ok n) ok.tables h1 (tok, v) hm
+  exact member_found_regular hk hcov hext hkw hl hne (by rw [responseDescs_eq hlive]; exact hd) hcl
+
+theorem norm_lookup_securityScheme (ok : TablesOK) {ki : KindInfo}
+    (hk : lookupKind Gen.kinds "securityScheme" = some ki)
+    (hlive : liveParts ki = ["SecuritySchemeProps", "VendorExtensible"])
+    (hcov : structCovered ki = true) (hext : extCovered ki = true) (hkw : keywordsNotNumerals = true)
+    {j₀ : Json} {ms : List (String × Json)} (h : norm "securityScheme" j₀ = .ok (.obj ms))
+    {tok : String} {v : Json} (hm : (tok, v) ∈ ms) (hne : tok ≠ "$ref") :
+    lookupTok "securityScheme" ms tok = some v := by
+  have hl := nd_obj_lookup (norm_nd ok "securityScheme" j₀ _ h) hm
+  obtain ⟨n, hn⟩ := norm_succ h
+  have h1 : normSecurityScheme (normF n) j₀ = .ok (.obj ms) := by simpa [normKind] using hn
+  obtain ⟨d, hd, hcl⟩ := normSecurityScheme_claims (normF_nd ok n) ok.tables h1 (tok, v) hm
+  exact member_found_regular hk hcov hext hkw hl hne (by rw [securitySchemeDescs_eq hlive]; exact hd) hcl
+
+theorem norm_lookup_responses (ok : TablesOK) {ki : KindInfo} (hk : lookupKind Gen.kinds "responses" = some ki)
+    (hchain : ["Default", "Extensions", "StatusCodeResponses"].all ki.lookupChain.contains = true)
+    {j₀ : Json} {ms : List (String × Json)} (h : norm "responses" j₀ = .ok (.obj ms))
+    {tok : String} {v : Json} (hm : (tok, v) ∈ ms) : lookupTok "responses" ms tok = some v := by
+  have hl := nd_obj_lookup (norm_nd ok "responses" j₀ _ h) hm
+  obtain ⟨n, hn⟩ := norm_succ h
+  have h1 : normResponses (normF n) j₀ = .ok (.obj ms) := by simpa [normKind] using hn
+  exact member_found_responses hk hchain hl (normResponses_members h1 (tok, v) hm)
+
+theorem norm_lookup_paths (ok : TablesOK) {ki : KindInfo} (hk : lookupKind Gen.kinds "paths" = some ki)
+    (hchain : ["Paths", "Extensions"].all ki.lookupChain.contains = true)
+    {j₀ : Json} {ms : List (String × Json)} (h : norm "paths" j₀ = .ok (.obj ms))
+    {tok : String} {v : Json} (hm : (tok, v) ∈ ms) : lookupTok "paths" ms tok = some v := by
+  have hl := nd_obj_lookup (norm_nd ok "paths" j₀ _ h) hm
+  obtain ⟨n, hn⟩ := norm_succ h
+  have h1 : normPaths (normF n) j₀ = .ok (.obj ms) := by simpa [normKind] using hn
+  exact member_found_paths hk hchain hl (normPaths_members h1 (tok, v) hm)
+
 end SpecModel.Codec
